@@ -15,7 +15,7 @@ REQUIRED_COUNTERS = ["judged.conelp.feasible", "judged.conelp.pinf", "judged.con
 def plan(tier):
     if tier == "thorough":
         return [{"variant": "plain", "workers": 16, "cases": 15000}]
-    return [{"variant": "plain", "workers": 16, "cases": 200}]
+    return [{"variant": "plain", "workers": 16, "cases": 600}]
 
 
 def run(ctx):
